@@ -10,6 +10,7 @@
 From Coq Require Import List NArith Arith Bool Lia.
 From V Require Proofs.ExprsTie3.  (* whole-word regimes, fill_symmetric, text widths: regenerated from the Rust source, equal the model's *)
 From V Require Proofs.ExprsTie.   (* the kernels' word-level expressions, regenerated from the Rust source, equal the model's *)
+From V Require Import Checkers.Check Proofs.CheckSound.   (* the extracted checkers and their soundness proofs, pinned at the end of this file *)
 From V Require Import Base.Res Model.Kernels Model.Canon Model.TwoLevel Model.Api Spec.Bfun Spec.Calls
   Proofs.Order Proofs.Invariant.
 Import ListNotations.
@@ -146,3 +147,23 @@ Print Assumptions C02_npn_walk.
 Print Assumptions C02_p_canon_wf.
 Print Assumptions C02_n_canon_wf.
 Print Assumptions C02_npn_canon_wf.
+
+
+(* ---- soundness of the extracted checkers that decide this property's statement on the implementation's results *)
+Theorem C02_checker_eq_iff : forall na a nb b r,
+  chk_eq na a nb b r = true <-> (r = true <-> na = nb /\ forall m, m < 2 ^ N.of_nat na -> val a m = val b m).
+Proof. exact CheckSound.chk_eq_iff. Qed.
+
+Theorem C02_checker_eq_sound : forall na a nb b r,
+  wf na a -> wf nb b ->
+  (chk_eq na a nb b r = true <-> D_eq (mkLut na a) (mkLut nb b) = r).
+Proof. exact CheckSound.chk_eq_sound. Qed.
+
+Theorem C02_checker_cmp_sound : forall na a nb b c,
+  wf na a -> wf nb b ->
+  (chk_cmp na a nb b c = true <-> D_cmp (mkLut na a) (mkLut nb b) = Ok c).
+Proof. exact CheckSound.chk_cmp_sound. Qed.
+
+Print Assumptions C02_checker_eq_iff.
+Print Assumptions C02_checker_eq_sound.
+Print Assumptions C02_checker_cmp_sound.
